@@ -271,9 +271,10 @@ func ArrProps(propContainer map[string]object.PanObject) map[string]object.PanOb
 						fmt.Sprintf("%s cannot be treated as arr", args[0].Repr()))
 				}
 
-				pairs := make([]object.Pair, len(self.Elems))
+				pairs := []object.Pair{}
+				nonScalarPairs := []object.Pair{}
 
-				for i, e := range self.Elems {
+				for _, e := range self.Elems {
 					arr, ok := object.TraceProtoOfArr(e)
 					if !ok {
 						return object.NewValueErr(
@@ -285,10 +286,20 @@ func ArrProps(propContainer map[string]object.PanObject) map[string]object.PanOb
 							fmt.Sprintf(`element %s must have two elements`, arr.Repr()))
 					}
 
-					pairs[i] = object.Pair{
+					pair := object.Pair{
 						Key:   arr.Elems[0],
 						Value: arr.Elems[1],
 					}
+
+					// NOTE: NewPanMap does not check duplicated nonhashable keys
+					// (the first one is kept, same as map literals)
+					if _, ok := pair.Key.(object.PanScalar); !ok {
+						if _, exists := containsKey(pair.Key, nonScalarPairs, propContainer, env); exists {
+							continue
+						}
+						nonScalarPairs = append(nonScalarPairs, pair)
+					}
+					pairs = append(pairs, pair)
 				}
 
 				return object.NewPanMap(pairs...)
